@@ -48,8 +48,8 @@ type tok struct {
 	Iat    string `json:"iat"`
 	Life   string `json:"life"`
 	// exact values of the time claims (filled from the case's "tv"; part of the cache key)
-	TV timeValues `json:"-"`
-	Len    string `json:"len"`
+	TV  timeValues `json:"-"`
+	Len string     `json:"len"`
 }
 
 // timeValues: durations in seconds as decimal text, computed by the specification (HttpGuard.tla TimeValues)
@@ -114,14 +114,23 @@ func timeClaims(tv timeValues, now int64) (iat, nbf, exp any) {
 }
 
 type caseIn struct {
-	ID     string   `json:"id"`
-	Cfg    string   `json:"cfg"`
-	Port   string   `json:"port"`
-	Form   string   `json:"form"`
-	Method string   `json:"method"`
-	Target []string `json:"target"`
-	Tok    tok      `json:"tok"`
+	ID     string     `json:"id"`
+	Cfg    string     `json:"cfg"`
+	Port   string     `json:"port"`
+	Form   string     `json:"form"`
+	Method string     `json:"method"`
+	Target []string   `json:"target"`
+	Tok    tok        `json:"tok"`
 	TV     timeValues `json:"tv"`
+	// histories: the relation of this request to the earlier one(s) of the behaviour ("none" = a single request)
+	Rel  string   `json:"rel"`
+	Past []pastIn `json:"past"`
+}
+
+// pastIn is an earlier request of the history: the same listener and target, with this credential (described at ITS time)
+type pastIn struct {
+	Tok tok        `json:"tok"`
+	TV  timeValues `json:"tv"`
 }
 
 type input struct {
@@ -136,6 +145,12 @@ type obs struct {
 	Reached []string `json:"reached"`
 	User    string   `json:"user"`
 	Err     string   `json:"err,omitempty"`
+	// histories: what the earlier request of the behaviour did, when the two requests were sent (Unix seconds) and the
+	// exp claim of the earlier request's token
+	First       *obs    `json:"first,omitempty"`
+	SentAt      float64 `json:"sent_at,omitempty"`
+	FirstSentAt float64 `json:"first_sent_at,omitempty"`
+	FirstExp    float64 `json:"first_exp,omitempty"`
 }
 
 type result struct {
@@ -205,7 +220,7 @@ type inst struct {
 	user     string
 }
 
-var routes = map[string]string{"internal": "/internal/x", "iparam": "/internal/p/:id", "iroot": "/internal",
+var routes = map[string]string{"internal": "/internal/x", "iparam": "/internal/p/:id", "iwild": "/internal/w/*", "iroot": "/internal",
 	"status": "/status", "metrics": "/metrics", "health": "/health", "public": "/pub/x"}
 
 func freePort() int {
@@ -296,14 +311,31 @@ func startEngine(same bool, keysFile string) (*inst, error) {
 }
 
 func (in *inst) request(port, method, target string, authHeaders []string) (status int, reached []string, usr string, err error) {
+	k, err := in.dial(port)
+	if err != nil {
+		return 0, nil, "", err
+	}
+	defer k.Close()
+	return k.exchange(method, target, authHeaders, true)
+}
+
+// link is one TCP connection to a listener of the engine; several requests can be sent over it (keep-alive)
+type link struct {
+	in   *inst
+	addr string
+	conn net.Conn
+	br   *bufio.Reader
+}
+
+func (k *link) Close() { k.conn.Close() }
+
+func (in *inst) dial(port string) (*link, error) {
 	addr := in.internal
 	if port == "public" {
 		addr = in.public
 	}
-	in.mu.Lock()
-	in.hits, in.user = nil, ""
-	in.mu.Unlock()
 	var conn net.Conn
+	var err error
 	for i := 0; i < 5; i++ {
 		conn, err = net.DialTimeout("tcp", addr, 2*time.Second)
 		if err == nil {
@@ -312,20 +344,31 @@ func (in *inst) request(port, method, target string, authHeaders []string) (stat
 		time.Sleep(20 * time.Millisecond)
 	}
 	if err != nil {
-		return 0, nil, "", err
+		return nil, err
 	}
-	defer conn.Close()
-	_ = conn.SetDeadline(time.Now().Add(10 * time.Second))
+	return &link{in: in, addr: addr, conn: conn, br: bufio.NewReader(conn)}, nil
+}
+
+// exchange sends one request over the connection and reads the answer; last = ask the server to close afterwards
+func (k *link) exchange(method, target string, authHeaders []string, last bool) (status int, reached []string, usr string, err error) {
+	in := k.in
+	in.mu.Lock()
+	in.hits, in.user = nil, ""
+	in.mu.Unlock()
+	_ = k.conn.SetDeadline(time.Now().Add(10 * time.Second))
 	var sb strings.Builder
-	sb.WriteString(method + " " + target + " HTTP/1.1\r\nHost: " + addr + "\r\n")
+	sb.WriteString(method + " " + target + " HTTP/1.1\r\nHost: " + k.addr + "\r\n")
 	for _, h := range authHeaders {
 		sb.WriteString(h + "\r\n")
 	}
-	sb.WriteString("Connection: close\r\n\r\n")
-	if _, err = io.WriteString(conn, sb.String()); err != nil {
+	if last {
+		sb.WriteString("Connection: close\r\n")
+	}
+	sb.WriteString("\r\n")
+	if _, err = io.WriteString(k.conn, sb.String()); err != nil {
 		return 0, nil, "", err
 	}
-	resp, err := http.ReadResponse(bufio.NewReader(conn), nil)
+	resp, err := http.ReadResponse(k.br, nil)
 	if err != nil {
 		return 0, nil, "", err
 	}
@@ -370,6 +413,13 @@ func uuid4() string {
 
 // tokens builds the JWS text(s) for the attributes (several realisations for MAC algorithms).
 func (w *world) tokens(t tok) map[string]string {
+	out, _ := w.tokensOver(t, nil)
+	return out
+}
+
+// tokensOver is tokens, but the claims are the given payload when there is one (histories: the claims of an earlier token
+// under another signature); it also returns the payload that was signed.
+func (w *world) tokensOver(t tok, over []byte) (map[string]string, []byte) {
 	kind, alg := "ed25519", t.Alg
 	if i := strings.IndexByte(t.Alg, '/'); i > 0 {
 		kind, alg = t.Alg[:i], t.Alg[i+1:]
@@ -425,18 +475,23 @@ func (w *world) tokens(t tok) map[string]string {
 	case "missing":
 		delete(claims, "jti")
 	}
-	iat, nbf, exp := timeClaims(t.TV, now)
-	for name, v := range map[string]any{"iat": iat, "nbf": nbf, "exp": exp} {
-		if v == nil {
-			delete(claims, name)
-		} else {
-			claims[name] = v
+	if over == nil {
+		iat, nbf, exp := timeClaims(t.TV, now)
+		for name, v := range map[string]any{"iat": iat, "nbf": nbf, "exp": exp} {
+			if v == nil {
+				delete(claims, name)
+			} else {
+				claims[name] = v
+			}
 		}
 	}
 	if t.Len == "long" {
 		claims["pad"] = strings.Repeat("a", 4200)
 	}
 	payload, _ := json.Marshal(claims)
+	if over != nil {
+		payload = over
+	}
 	hdr := map[string]any{"typ": "JWT", "alg": alg}
 	if hasKid {
 		hdr["kid"] = kid
@@ -494,7 +549,7 @@ func (w *world) tokens(t tok) map[string]string {
 			}
 		}
 	}
-	return out
+	return out, payload
 }
 
 func (w *world) credentials(t tok) []cred {
@@ -587,6 +642,118 @@ func (w *world) run(c caseIn) (res result) {
 	return
 }
 
+// ------------------------------------------------------------------------------------------------ histories
+
+func isHistory(c caseIn) bool { return c.Rel != "" && c.Rel != "none" && len(c.Past) > 0 }
+
+func unixNow() float64 { return float64(time.Now().UnixNano()) / 1e9 }
+
+// pending is a history whose first request has been made and whose second request waits for the lapse of time
+type pending struct {
+	c       caseIn
+	target  string
+	first   obs
+	headers []string // the credential of the first request
+	payload []byte   // its claims
+	sentAt  float64
+	exp     float64
+}
+
+func (w *world) targetOf(c caseIn) (in *inst, target string) {
+	in = w.engines[c.Cfg]
+	addr := in.internal
+	if c.Port == "public" {
+		addr = in.public
+	}
+	var sb strings.Builder
+	for _, a := range c.Target {
+		if a == "HOST" {
+			a = addr
+		}
+		sb.WriteString(a)
+	}
+	return in, sb.String()
+}
+
+// first makes the first request of a history (and, for the relations that need no lapse of time, the second one on the same
+// connection: then the result is complete and returned).
+func (w *world) first(c caseIn) (p *pending, res *result) {
+	res = &result{ID: c.ID}
+	defer func() {
+		if r := recover(); r != nil {
+			res.Error = fmt.Sprint("driver panic: ", r)
+			p = nil
+		}
+	}()
+	in, target := w.targetOf(c)
+	ft := c.Past[0].Tok
+	ft.TV = c.Past[0].TV
+	toks, payload := w.tokensOver(ft, nil)
+	jws, ok := toks[""]
+	if !ok {
+		panic("history: the first credential has no single realisation")
+	}
+	var claims map[string]any
+	_ = json.Unmarshal(payload, &claims)
+	exp, _ := claims["exp"].(float64)
+	p = &pending{c: c, target: target, headers: []string{"Authorization: Bearer " + jws}, payload: payload, exp: exp}
+	line := c.Method + " " + target + " HTTP/1.1"
+	k, err := in.dial(c.Port)
+	if err != nil {
+		res.Error = err.Error()
+		return nil, res
+	}
+	defer k.Close()
+	sameConn := c.Rel == "absent-keepalive"
+	p.sentAt = unixNow()
+	st, reached, usr, err := k.exchange(c.Method, target, p.headers, !sameConn)
+	p.first = obs{Line: line, Auth: short(p.headers), Status: st, Reached: reached, User: usr}
+	if err != nil {
+		p.first.Err = err.Error()
+	}
+	if !sameConn {
+		return p, nil
+	}
+	o := obs{Real: c.Rel, Line: line + " (second request on the connection)", First: &p.first, FirstSentAt: p.sentAt, FirstExp: p.exp, SentAt: unixNow()}
+	if err == nil {
+		o.Status, o.Reached, o.User, err = k.exchange(c.Method, target, nil, true)
+	}
+	if err != nil {
+		o.Err = err.Error()
+	}
+	res.Obs = []obs{o}
+	return nil, res
+}
+
+// second makes the second request of a history after the lapse of time.
+func (w *world) second(p *pending) (res result) {
+	res.ID = p.c.ID
+	defer func() {
+		if r := recover(); r != nil {
+			res.Error = fmt.Sprint("driver panic: ", r)
+		}
+	}()
+	c := p.c
+	in := w.engines[c.Cfg]
+	headers := p.headers
+	switch c.Rel {
+	case "same-later":
+	case "resigned-later": // the claims of the first token under the signature the attributes describe
+		toks, _ := w.tokensOver(c.Tok, p.payload)
+		headers = []string{"Authorization: Bearer " + toks[""]}
+	default:
+		panic("unknown relation " + c.Rel)
+	}
+	o := obs{Real: c.Rel, Line: c.Method + " " + p.target + " HTTP/1.1", Auth: short(headers), First: &p.first, FirstSentAt: p.sentAt, FirstExp: p.exp, SentAt: unixNow()}
+	var err error
+	o.Status, o.Reached, o.User, err = in.request(c.Port, c.Method, p.target, headers)
+	if err != nil {
+		o.Err = err.Error()
+	}
+	res.Obs = []obs{o}
+	return
+}
+
 func TestDriver(t *testing.T) {
 	inPath, outPath := os.Getenv("VERIF_IN"), os.Getenv("VERIF_OUT")
 	if inPath == "" {
@@ -629,9 +796,51 @@ func TestDriver(t *testing.T) {
 	bw := bufio.NewWriter(out)
 	defer bw.Flush()
 	enc := json.NewEncoder(bw)
+	// histories: all first requests now; the second requests as soon as every short-lived token of a first request has
+	// expired (exp is a whole second; 300 ms later the token is expired for everybody); the other cases fill the wait
+	var pend []*pending
+	var due time.Time
 	for _, c := range in.Cases {
+		if !isHistory(c) {
+			continue
+		}
+		p, res := w.first(c)
+		if p == nil {
+			if err := enc.Encode(res); err != nil {
+				t.Fatal(err)
+			}
+			continue
+		}
+		pend = append(pend, p)
+		if p.c.Past[0].Tok.Life == "short" {
+			if d := time.Unix(int64(p.exp), 0).Add(300 * time.Millisecond); d.After(due) {
+				due = d
+			}
+		}
+	}
+	flush := func() {
+		for _, p := range pend {
+			if err := enc.Encode(w.second(p)); err != nil {
+				t.Fatal(err)
+			}
+		}
+		pend = nil
+	}
+	for _, c := range in.Cases {
+		if isHistory(c) {
+			continue
+		}
+		if pend != nil && time.Now().After(due) {
+			flush()
+		}
 		if err := enc.Encode(w.run(c)); err != nil {
 			t.Fatal(err)
 		}
+	}
+	if pend != nil {
+		if d := time.Until(due); d > 0 {
+			time.Sleep(d)
+		}
+		flush()
 	}
 }
